@@ -10,7 +10,9 @@ import (
 
 	corev1 "k8s.io/api/core/v1"
 	metav1 "k8s.io/apimachinery/pkg/apis/meta/v1"
+	"tkestack.io/galaxy/pkg/api/galaxy/constant"
 	"tkestack.io/galaxy/pkg/api/k8s/schedulerapi"
+	"tkestack.io/galaxy/pkg/ipam/apis/galaxy/v1alpha1"
 	"tkestack.io/galaxy/pkg/ipam/floatingip"
 	"tkestack.io/galaxy/pkg/ipam/schedulerplugin"
 	"tkestack.io/galaxy/pkg/ipam/schedulerplugin/util"
@@ -373,6 +375,76 @@ func (w *World) Apply(line string) (final string, result string) {
 			return line, o
 		}
 		return line, "ok"
+	case f[0] == "admres" && len(f) == 4:
+		// an administrator reserves an unallocated address: the labelled FloatingIP object, then its watch event
+		ip64, err := strconv.ParseUint(f[1], 10, 32)
+		text := unTilde(f[2])
+		if err != nil {
+			return line, "bad-op"
+		}
+		if text == "" {
+			return line, "err bad-input"
+		}
+		ip := uint32(ip64)
+		free := false
+		for _, r := range w.IPAMDump() {
+			if r.IP == ip && r.Free {
+				free = true
+			}
+		}
+		if !free {
+			return line, "err not-free"
+		}
+		obj := &v1alpha1.FloatingIP{
+			TypeMeta:   metav1.TypeMeta{Kind: constant.ResourceKind, APIVersion: constant.ApiVersion},
+			ObjectMeta: metav1.ObjectMeta{Name: IPStr(ip), Labels: map[string]string{constant.ReserveFIPLabel: "this-is-not-for-pods"}},
+			Spec:       v1alpha1.FloatingIPSpec{Key: "_" + text + "_", Policy: constant.ReleasePolicy(atoiDef(f[3]))}}
+		if _, err := w.Galaxy.GalaxyV1alpha1().FloatingIPs().Create(ctx, obj, metav1.CreateOptions{}); err != nil {
+			return line, "err not-free"
+		}
+		if o := guard(func() {
+			for _, h := range w.fipHandlers {
+				h.OnAdd(obj.DeepCopy())
+			}
+		}); o != "ok" {
+			return line, o
+		}
+		w.Admin[ip] = obj.Spec.Key
+		return line, "ok"
+	case f[0] == "admunres" && len(f) == 2:
+		// the administrator withdraws a reservation: deletes the object, then the watch event
+		ip64, err := strconv.ParseUint(f[1], 10, 32)
+		if err != nil {
+			return line, "bad-op"
+		}
+		ip := uint32(ip64)
+		found, reserved := false, false
+		for _, r := range w.IPAMDump() {
+			if r.IP == ip && !r.Free {
+				found = true
+				reserved = r.Reserved && strings.HasPrefix(r.Key, "_")
+			}
+		}
+		if !found {
+			return line, "err not-found"
+		}
+		if !reserved {
+			return line, "err not-reserved"
+		}
+		obj, err := w.Galaxy.GalaxyV1alpha1().FloatingIPs().Get(ctx, IPStr(ip), metav1.GetOptions{})
+		if err != nil {
+			return line, "err not-found"
+		}
+		w.Galaxy.GalaxyV1alpha1().FloatingIPs().Delete(ctx, IPStr(ip), metav1.DeleteOptions{})
+		if o := guard(func() {
+			for _, h := range w.fipHandlers {
+				h.OnDelete(obj.DeepCopy())
+			}
+		}); o != "ok" {
+			return line, o
+		}
+		delete(w.Admin, ip)
+		return line, "ok"
 	case f[0] == "release" && len(f) == 9:
 		ip, err := strconv.ParseUint(f[1], 10, 32)
 		if err != nil {
@@ -479,8 +551,13 @@ func (w *World) ApplyCrash(line string, at int) (final string, result string, cr
 }
 
 // voidDropped marks (pod uid, ip) pairs whose address is no longer configured: C04 speaks about reloads "that still
-// contain the IP".
+// contain the IP".  A reservation on an address that left the configuration is over as well.
 func (w *World) voidDropped() {
+	for ip := range w.Admin {
+		if !ConfHas(w.Pools, ip) {
+			delete(w.Admin, ip)
+		}
+	}
 	for _, p := range w.TruthPods() {
 		for _, h := range HandedIPs(p) {
 			if !ConfHas(w.Pools, h[0]) {
